@@ -23,6 +23,10 @@ const (
 	// MaxSamplingTryCount bounds the number of sampling rounds run (without gas metering) for every request:
 	// an unbounded value stalls block execution, and one above the int range selects no validators at all.
 	MaxSamplingTryCount = uint64(100)
+
+	// MaxDataSize bounds max_calldata_size and max_report_data_size: the larger of the two is the size of the buffer
+	// the owasm VM allocates for every span it exchanges with a script; an allocation that fails aborts the node.
+	MaxDataSize = uint64(1 * 1024 * 1024) // 1MB
 )
 
 // NewParams creates a new parameter configuration for the oracle module
@@ -76,6 +80,12 @@ func (p Params) Validate() error {
 	}
 	if err := validateUint64("max report data size", true)(p.MaxReportDataSize); err != nil {
 		return err
+	}
+	if p.MaxCalldataSize > MaxDataSize {
+		return fmt.Errorf("max calldata size must not exceed %d: %d", MaxDataSize, p.MaxCalldataSize)
+	}
+	if p.MaxReportDataSize > MaxDataSize {
+		return fmt.Errorf("max report data size must not exceed %d: %d", MaxDataSize, p.MaxReportDataSize)
 	}
 	if err := validateUint64("expiration block count", true)(p.ExpirationBlockCount); err != nil {
 		return err
